@@ -183,13 +183,12 @@ def run(ctx):
     ENG = eng = ctx.engine()
     nat = ctx.nat()
     items = [(fam, tuple(g)) for fam, groups in PORTABLE.items() for g in groups]
-    if not quick:
-        # thorough: the SELECT groups are also explored pairwise merged (all combinations inside each merged group)
-        sg = PORTABLE['select']
-        for i in range(len(sg)):
-            for j in range(i + 1, len(sg)):
-                merged = tuple(dict.fromkeys(sg[i] + sg[j]))
-                if len(merged) <= 13: items.append(('select', merged))
+    # the SELECT groups are also explored pairwise merged (all combinations inside each merged group): up to 13 clauses in the thorough tier, up to 11 in the quick tier
+    sg = PORTABLE['select']
+    for i in range(len(sg)):
+        for j in range(i + 1, len(sg)):
+            merged = tuple(dict.fromkeys(sg[i] + sg[j]))
+            if len(merged) <= (11 if quick else 13): items.append(('select', merged))
     ctx.bounds = {'families': ['%s: optional clauses %s' % (f, list(g)) for f, g in items], 'backends': list(BACKENDS), 'mode': 'build() on the three backends along the same path',
                   'lexical_map': ['identifier quotes', 'placeholder style', 'parentheses around set-operation members', 'VALUES ROW(..)', 'IFNULL/COALESCE, RAND/RANDOM, CHAR_LENGTH/LENGTH, GREATEST|LEAST / MAX|MIN', 'MySQL `expr IS NULL ASC|DESC,` = NULLS LAST|FIRST']}
     ctx.assumptions += ['NOT decided here: that the three engines return identical results; that each documented substitution is semantically equivalent (trusted, stated)',
